@@ -239,6 +239,8 @@ func registerGoStubs(p *Program) {
 		AuthbossMod + "/otp/twofactor/sms2fa.generateRandomCode":  "SummarySMSCode",
 		AuthbossMod + "/otp/twofactor.GenerateRecoveryCodes":      "SummaryRecoveryCodes",
 		AuthbossMod + "/otp.generateOTP":                          "SummaryGenerateOTP",
+		AuthbossMod + "/defaults.tallyCharacters":                 "SummaryTallyCharacters",
+		"(" + AuthbossMod + "/defaults.Rules).Errors":             "SummaryRulesErrors",
 	}
 	for ext, name := range summaries {
 		if f := sp.Func(name); f != nil {
